@@ -302,7 +302,8 @@ REGISTRY = {
                   ("PsProps.C01", "Ps.Props.C01_blocks_nonempty"), ("PsProps.C01", "Ps.Props.C01_crossoff_tables"),
                   ("PsProps.C01", "Ps.Props.C01_crossoff_step"), ("PsProps.C01", "Ps.Props.C01_crossoff_walk_exact"),
                   ("PsProps.C01", "Ps.Props.C01_first_multiple"), ("PsProps.C01", "Ps.Props.C01_presieve_exact"),
-                  ("PsProps.C01", "Ps.Props.C01_wheel_source")],
+                  ("PsProps.C01", "Ps.Props.C01_wheel_source"), ("PsProps.C01", "Ps.Props.C01_sieve_principle"),
+                  ("PsProps.C01", "Ps.Props.C01_crossoff_covers_segment")],
         tie=combine(("iter", iter_tie), ("segment", segment_tie), ("wheel", streams.WHEEL.tie), ("cross", streams.CROSS.tie),
                     ("presieve", streams.PRESIEVE.tie)),
         witness=combine_witness(iter_witness, streams.WHEEL.witness, streams.CROSS.witness, streams.PRESIEVE.witness, segment_witness), assumptions=ITER_ASSUME,
